@@ -222,11 +222,16 @@ impl<KK: KeyKind> KeyKind for FaultK<KK> {
 /// a Toy secret whose public key starts with a byte >= 0xf0 (long signatures, see sig::toy_sig)
 pub const LONG_TOY_LABEL: u64 = 0x7070_0000;
 
+/// a Toy secret whose public key starts with 0xe0..=0xef (signatures of 1..8 bytes)
+pub const SHORT_TOY_LABEL: u64 = 0x7171_0000;
+
 pub fn secret_from(scheme: Scheme, label: u64) -> [u8; 32] {
-    if scheme == Scheme::Toy && label & 0xffff_0000 == LONG_TOY_LABEL {
+    if scheme == Scheme::Toy && (label & 0xffff_0000 == LONG_TOY_LABEL || label & 0xffff_0000 == SHORT_TOY_LABEL) {
+        let long = label & 0xffff_0000 == LONG_TOY_LABEL;
         for i in 0..100_000u64 {
-            let s = secret_from(scheme, (label & 0xffff) * 100_003 + i + 0x9000_0000);
-            if sig::toy_pub(&s)[0] >= 0xf0 {
+            let s = secret_from(scheme, (label & 0xffff) * 100_003 + i + if long { 0x9000_0000 } else { 0xa000_0000 });
+            let b = sig::toy_pub(&s)[0];
+            if (long && b >= 0xf0) || (!long && (0xe0..0xf0).contains(&b)) {
                 return s;
             }
         }
